@@ -776,12 +776,13 @@ impl Expr {
     pub fn is_renderable(&self) -> bool {
         match self {
             Expr::Lit(v) => value_is_renderable(v),
-            Expr::Read(_) => true,
+            // (names only the API can bind cannot be spelled in source text)
+            Expr::Read(n) => !crate::env::API_ONLY_NAMES.contains(&n.as_str()),
             Expr::Call(_, a) => a.as_ref().map(|a| a.is_renderable()).unwrap_or(true),
             Expr::Un(_, a) => a.is_renderable(),
             Expr::Bin(_, a, b) => a.is_renderable() && b.is_renderable(),
             Expr::Tuple(v) | Expr::Chain(v) => v.len() >= 2 && v.iter().all(|e| e.is_renderable()),
-            Expr::Assign(_, _, e) => e.is_renderable(),
+            Expr::Assign(_, n, e) => !crate::env::API_ONLY_NAMES.contains(&n.as_str()) && e.is_renderable(),
             // assembled only: how the parser groups a dangling operator is not this check's business
             Expr::Dangling(..) => false,
             // a bare identifier before `=` would be read as the variable itself
